@@ -15,8 +15,14 @@
      first_stop l k x   = l[k] = x <> Bd, every l[j] with j < k is Bd
      head_of i          = [SkipVerify if the verifier has one; Resolve; ListSignatures]
      pairs a b          = [Fetch a; Verify a; ...; Fetch (b-1); Verify (b-1)]
-     fetches / verifies = positions fetched / verified, in call order *)
-From NV Require Import Base C10_Model C10_Proofs.
+     fetches / verifies = positions fetched / verified, in call order
+     classify p r       = the reference class computed from the parsed reference p (oracle:
+                          oras ParseReference) and the string r of the resolved digest; for a
+                          digest reference PDigest dg it is the comparison dg = r of notation.go
+     drive N s calls    = the callback of notation.Verify invoked on an arbitrary sequence of
+                          pages, its results ignored (C10_Model)
+   Clause-by-clause table: docs/audit/C10.md *)
+From NV Require Import Base C10_Model C10_Proofs C10_Audit.
 Local Open Scope list_scope.
 
 (* ---------- paging is invisible ---------- *)
@@ -247,3 +253,231 @@ Proof.
     intros j Hj. destruct j as [|j]; [reflexivity | lia].
   - reflexivity.
 Qed.
+
+(* ====================================================================== *)
+(* Added by the clause audit (docs/audit/C10.md)                           *)
+(* ====================================================================== *)
+
+(* ---------- success: the property's wording picks the FIRST verifying signature ---------- *)
+
+(* under the Verifier contract: if SOME signature k among the first N verifies and nothing
+   listed before it is unfetchable, Verify succeeds with the FIRST verifying signature k0 <= k,
+   returns the resolved descriptor and exactly k0's outcome, and made exactly the calls
+   Resolve, ListSignatures, Fetch/Verify 0..k0 *)
+Theorem C10_first_good_wins : forall i k,
+  reaches_listing i -> ~ In NO (listing i) ->
+  (Z.of_nat k < i_max i)%Z -> nth_error (listing i) k = Some G ->
+  (forall j, j < k -> nth_error (listing i) j <> Some U) ->
+  exists k0, k0 <= k /\ nth_error (listing i) k0 = Some G /\
+    (forall j, j < k0 -> nth_error (listing i) j = Some Bd) /\
+    model i = mk_obs ROk DResolved (OSig k0) (head_of i ++ pairs 0 (S k0)) true.
+Proof. exact first_good_wins. Qed.
+Print Assumptions C10_first_good_wins.
+
+(* the Verifier contract is needed: with a verifier that fails WITHOUT an outcome the literal
+   "succeeds iff one of the first N verifies and every earlier one could be fetched" is false:
+   listing [NO; G], limit 2 -> the verifier's error for signature 0 (replayed on the real
+   code by the harness: families A, F2) *)
+Theorem C10_iff_without_contract_refuted :
+  exists i, reaches_listing i /\
+    (exists k, (Z.of_nat k < i_max i)%Z /\ nth_error (listing i) k = Some G /\
+               forall j, j < k -> nth_error (listing i) j <> Some U) /\
+    model i = err_obs (RNilOutcome 0) [ER; EL; EF 0; EV 0].
+Proof. exact iff_without_contract_refuted. Qed.
+Print Assumptions C10_iff_without_contract_refuted.
+
+(* what a reached listing can look like: the four situations of C10_iff / C10_error_unfetchable
+   / C10_error_nil_outcome / C10_error_exceeded / C10_error_all_failed (+ list error) are all *)
+Theorem C10_cases_exhaustive : forall (l : list sigk) (N : Z),
+  (exists k, first_good l N k) \/
+  (exists k x, first_stop l k x /\ (x = U \/ x = NO) /\ (Z.of_nat k < N)%Z) \/
+  (forall j, (Z.of_nat j < N)%Z -> nth_error l j = Some Bd) \/
+  ((Z.of_nat (List.length l) < N)%Z /\ forall j, j < List.length l -> nth_error l j = Some Bd).
+Proof. exact cases_exhaustive. Qed.
+Print Assumptions C10_cases_exhaustive.
+
+(* ---------- the digest pin as a comparison of strings ---------- *)
+
+(* a digest reference dg, the repository resolves to the digest string r <> dg: the mismatch
+   error right after Resolve; nothing listed, fetched, verified *)
+Theorem C10_pin_refuses : forall i dg r,
+  i_ref i = classify (PDigest dg) r -> dg <> r ->
+  past_skip i -> i_rerr i = false ->
+  model i = err_obs RDigestMismatch (pre_of i ++ [ER]).
+Proof. exact pin_refuses. Qed.
+Print Assumptions C10_pin_refuses.
+
+(* ... for EVERY input with such a reference (nil arguments, any limit, any SkipVerify, Resolve
+   failing or not): success only by skip; ListSignatures, Fetch, Verify never called *)
+Theorem C10_pin_mismatch_all : forall i dg r,
+  i_ref i = classify (PDigest dg) r -> dg <> r ->
+  (o_res (model i) = ROk -> i_skip i = SkipYes) /\
+  ~ In EL (o_log (model i)) /\ fetches (o_log (model i)) = [] /\ verifies (o_log (model i)) = [].
+Proof. exact pin_mismatch_all. Qed.
+Print Assumptions C10_pin_mismatch_all.
+
+(* a success on a digest reference that was not a skip: the resolved digest IS the referenced one *)
+Theorem C10_pin_success : forall i dg r,
+  i_ref i = classify (PDigest dg) r -> o_res (model i) = ROk ->
+  i_skip i = SkipYes \/ dg = r.
+Proof. exact pin_success. Qed.
+Print Assumptions C10_pin_success.
+
+(* ---------- empty listing / listing error ---------- *)
+
+(* an empty listing is an error whatever ListSignatures answers at the end; no fetch, no verify *)
+Theorem C10_error_empty_listing_any : forall i,
+  reaches_listing i -> listing i = [] ->
+  model i = err_obs (if i_lerr i then RListErr else RNoSignature) (head_of i).
+Proof. exact err_empty_listing_any. Qed.
+Print Assumptions C10_error_empty_listing_any.
+
+(* fewer than N signatures, all failing, then ListSignatures itself fails: its error, as is *)
+Theorem C10_error_list_error : forall i,
+  reaches_listing i -> (Z.of_nat (List.length (listing i)) < i_max i)%Z ->
+  (forall j, j < List.length (listing i) -> nth_error (listing i) j = Some Bd) -> i_lerr i = true ->
+  model i = err_obs RListErr (head_of i ++ pairs 0 (List.length (listing i))).
+Proof. exact err_list_error_after. Qed.
+Print Assumptions C10_error_list_error.
+
+(* ---------- never more than N, without any assumption on the repository ---------- *)
+
+(* the callback handed to ListSignatures, invoked on ANY sequence of pages (a repository that
+   ignores the callback's error, repeats pages, delivers them out of order): in total at most N
+   fetches, and never more verifications than fetches *)
+Theorem C10_callback_never_exceeds : forall N calls head,
+  fetches head = [] -> verifies head = [] ->
+  let s := drive N (mk_st 0 [] None head) calls in
+  (Z.of_nat (List.length (fetches (s_log s))) <= Z.max 0 N)%Z /\
+  List.length (verifies (s_log s)) <= List.length (fetches (s_log s)).
+Proof. exact callback_never_exceeds. Qed.
+Print Assumptions C10_callback_never_exceeds.
+
+(* the conforming repository of the model is one such sequence *)
+Theorem C10_pages_loop_is_drive : forall N pages pos s,
+  exists calls, fst (pages_loop N pos s pages) = drive N s calls.
+Proof. exact pages_loop_is_drive. Qed.
+Print Assumptions C10_pages_loop_is_drive.
+
+(* the cases of harness family X (a scripted repository that ignores the callback's errors and
+   re-delivers pages) are judged by [dspec_ok]: at most N fetches, every verification right
+   after the fetch of the same signature; the model of those cases meets it *)
+Theorem C10_rogue_model_meets_oracle : forall d, dspec_ok d (dmodel d) = true.
+Proof. exact dmodel_spec_ok. Qed.
+Print Assumptions C10_rogue_model_meets_oracle.
+
+(* and on a conforming delivery [dmodel] is the call log of [model] *)
+Theorem C10_rogue_conforming : forall i,
+  reaches_listing i -> i_ref i = RTag ->
+  exists calls,
+    o_log (model i) = dmodel (mk_dinput (i_max i) (match i_skip i with NoSkipper => true | _ => false end) calls).
+Proof. exact dmodel_conforming. Qed.
+Print Assumptions C10_rogue_conforming.
+
+(* ---------- non-vacuity of the hypotheses used above and in the error theorems ---------- *)
+
+Definition ex_in (max : Z) (sk : skipper) (r : refclass) (pages : list (list sigk)) (lerr : bool) : input :=
+  mk_input false false max sk r false pages lerr.
+
+Lemma ex_reaches max sk r pages lerr :
+  (0 < max)%Z -> (sk = NoSkipper \/ sk = SkipNo) -> (r = RTag \/ r = RDigSame) ->
+  reaches_listing (ex_in max sk r pages lerr).
+Proof. intros. unfold reaches_listing, ex_in. cbn. auto 8. Qed.
+
+(* C10_iff_contract / C10_first_good_wins: two verifying signatures within the limit, a failing
+   one before them: the first one (position 1) wins, position 2 is never fetched *)
+Example C10_example_first_good_wins :
+  let i := ex_in 4 SkipNo RTag [[Bd; G]; [G; U]] false in
+  reaches_listing i /\ ~ In NO (listing i) /\
+  (Z.of_nat 2 < i_max i)%Z /\ nth_error (listing i) 2 = Some G /\
+  (forall j, j < 2 -> nth_error (listing i) j <> Some U) /\
+  model i = mk_obs ROk DResolved (OSig 1) [ES; ER; EL; EF 0; EV 0; EF 1; EV 1] true.
+Proof.
+  cbv zeta. split; [apply ex_reaches; auto; lia|]. split.
+  - cbn. intros [H|[H|[H|[H|[]]]]]; discriminate.
+  - split; [cbn; lia|]. split; [reflexivity|]. split; [|reflexivity].
+    intros j Hj. destruct j as [|[|j]]; cbn; [discriminate | discriminate | lia].
+Qed.
+
+(* C10_error_nil_outcome *)
+Example C10_example_nil_outcome :
+  let i := ex_in 3 NoSkipper RTag [[Bd]; [NO; G]] false in
+  reaches_listing i /\ first_stop (listing i) 1 NO /\ (Z.of_nat 1 < i_max i)%Z /\
+  model i = err_obs (RNilOutcome 1) [ER; EL; EF 0; EV 0; EF 1; EV 1].
+Proof.
+  cbv zeta. split; [apply ex_reaches; auto; lia|]. split; [|split; [cbn; lia | reflexivity]].
+  unfold first_stop. cbn. split; [reflexivity|]. split; [discriminate|].
+  intros j Hj. destruct j as [|j]; [reflexivity | lia].
+Qed.
+
+(* C10_error_exceeded: the first N = 2 all fail; the good one behind them is never touched *)
+Example C10_example_exceeded :
+  let i := ex_in 2 SkipNo RDigSame [[Bd]; [Bd]; [G]] false in
+  reaches_listing i /\
+  (forall j, (Z.of_nat j < i_max i)%Z -> nth_error (listing i) j = Some Bd) /\
+  model i = err_obs RExceeded [ES; ER; EL; EF 0; EV 0; EF 1; EV 1].
+Proof.
+  cbv zeta. split; [apply ex_reaches; auto; lia|]. split; [|reflexivity].
+  cbn. intros j Hj. destruct j as [|[|j]]; [reflexivity | reflexivity | lia].
+Qed.
+
+(* C10_error_all_failed / C10_error_list_error: two failing signatures, limit 5 *)
+Example C10_example_all_failed :
+  let i := ex_in 5 NoSkipper RTag [[Bd]; []; [Bd]] false in
+  reaches_listing i /\ listing i <> [] /\ (Z.of_nat (List.length (listing i)) < i_max i)%Z /\
+  (forall j, j < List.length (listing i) -> nth_error (listing i) j = Some Bd) /\
+  model i = err_obs (RAllFailed [0; 1]) [ER; EL; EF 0; EV 0; EF 1; EV 1].
+Proof.
+  cbv zeta. split; [apply ex_reaches; auto; lia|]. split; [cbn; discriminate|].
+  split; [cbn; lia|]. split; [|reflexivity].
+  cbn. intros j Hj. destruct j as [|[|j]]; [reflexivity | reflexivity | lia].
+Qed.
+
+Example C10_example_list_error :
+  let i := ex_in 5 NoSkipper RTag [[Bd]; []; [Bd]] true in
+  reaches_listing i /\ (Z.of_nat (List.length (listing i)) < i_max i)%Z /\ i_lerr i = true /\
+  model i = err_obs RListErr [ER; EL; EF 0; EV 0; EF 1; EV 1].
+Proof. cbv zeta. split; [apply ex_reaches; auto; lia|]. split; [cbn; lia|]. split; reflexivity. Qed.
+
+(* C10_error_empty_listing(_any): no page at all, and two empty pages *)
+Example C10_example_empty_listing :
+  let i := ex_in 1 SkipNo RTag [] false in
+  let i' := ex_in 1 SkipNo RTag [[]; []] true in
+  reaches_listing i /\ listing i = [] /\ model i = err_obs RNoSignature [ES; ER; EL] /\
+  reaches_listing i' /\ listing i' = [] /\ model i' = err_obs RListErr [ES; ER; EL].
+Proof. cbv zeta. repeat split; auto; cbn; try lia. Qed.
+
+(* C10_pin_refuses / C10_error_digest_mismatch: the resolved digest differs in its last character *)
+Example C10_example_pin :
+  let i := ex_in 3 SkipNo (classify (PDigest "sha256:aa") "sha256:ab") [[G]] false in
+  past_skip i /\ i_ref i = RDigDiff /\ "sha256:aa" <> "sha256:ab" /\
+  model i = err_obs RDigestMismatch [ES; ER].
+Proof. cbv zeta. split; [unfold past_skip; cbn; repeat split; auto; lia|]. split; [reflexivity|]. split; [discriminate | reflexivity]. Qed.
+
+(* C10_pin_success: equal strings, the listing is reached *)
+Example C10_example_pin_same :
+  let i := ex_in 3 SkipNo (classify (PDigest "sha256:aa") "sha256:aa") [[G]] false in
+  reaches_listing i /\ model i = mk_obs ROk DResolved (OSig 0) [ES; ER; EL; EF 0; EV 0] true.
+Proof. cbv zeta. split; [apply ex_reaches; auto; lia | reflexivity]. Qed.
+
+(* C10_error_no_reference / C10_error_bad_reference / C10_error_resolve / C10_error_limit / C10_skip *)
+Example C10_example_early_errors :
+  let noref := ex_in 3 NoSkipper RNone [[G]] false in
+  let badref := ex_in 3 SkipNo RInvalid [[G]] false in
+  let rerr := mk_input false false 3 SkipNo RTag true [[G]] false in
+  let nolimit := ex_in 0 SkipYes RTag [[G]] false in
+  let skip := ex_in 1 SkipYes RDigDiff [[G]] false in
+  past_skip noref /\ model noref = err_obs RNoRef [] /\
+  past_skip badref /\ model badref = err_obs RBadRef [ES] /\
+  past_skip rerr /\ model rerr = err_obs RResolveErr [ES; ER] /\
+  model nolimit = err_obs RBadMax [] /\
+  model skip = mk_obs ROk DZero OSkip [ES] true.
+Proof. cbv zeta. unfold past_skip. cbn. repeat split; auto; lia. Qed.
+
+(* C10_callback_never_exceeds: a repository that ignores the "done" error and calls the callback
+   again with the same page: the second good signature IS fetched and verified (the early exit
+   relies on the repository stopping at the callback's error), but never more than N = 2 in total *)
+Example C10_example_drive :
+  s_log (drive 2 (mk_st 0 [] None [ER; EL]) [(0, [G; G; G]); (0, [G; G; G])])
+  = [ER; EL; EF 0; EV 0; EF 0; EV 0].
+Proof. reflexivity. Qed.
